@@ -118,6 +118,7 @@ class Model:
         self.scope = scope
         self.uninterpreted = []
         self._items = {}
+        self._reach = {}
 
     def short(self, enum_path):
         return enum_path.rsplit("::", 1)[-1]
@@ -141,6 +142,13 @@ class Model:
             if f["name"] == fname:
                 return f["ty"]
         return None
+
+    def reaches_ids(self, ty):
+        if ty not in self._reach:
+            n = len(self.uninterpreted)
+            self._reach[ty] = bool(self._items_of(ty, ("?",), ())) or len(self.uninterpreted) > n
+            del self.uninterpreted[n:]
+        return self._reach[ty]
 
     def items(self, enum_path, vname):
         key = (enum_path, vname)
@@ -198,7 +206,7 @@ def has_tracked(v):
     if not isinstance(v, tuple) or not v:
         return False
     t = v[0]
-    if t in ("node", "at", "enum", "iter", "len", "isempty", "optis"):
+    if t in ("node", "at", "enum", "iter"):
         return True
     if t in ("ctor",):
         return any(has_tracked(x) for x in v[2])
@@ -335,6 +343,9 @@ class Interp:
             return ("node", path + (acc,))
         if k[0] == "box":
             return self.norm(path, acc, k[1])
+        if not self.m.reaches_ids(ty):
+            # an attribute of the node (operator, name, flag, type reference): an analysis datum keyed by the node
+            return ("ad", accstr(acc[1:]), (path,))
         return ("at", path, acc, strip_ref(ty))
 
     def sym(self, node, st, extra=None):
@@ -633,6 +644,12 @@ class Interp:
             return self.pm_ctor(d, subs, k, val, st, declare, pat)
         if k == "macro":
             return self.pm(pat[2], val, st, declare)
+        if k in ("prange", "pslice", "un"):
+            if has_tracked(val):
+                raise Unint("%s pattern against %s" % (k, val[0]))
+            a = st.clone()
+            self.bind_all(pat, UNK, a)
+            return [(a, True), (st, False)]
         raise Unint("pattern kind %s" % k)
 
     def pm_subs(self, subs, values, st, declare):
@@ -849,15 +866,20 @@ class Interp:
 
     def ev_if(self, e, st):
         out = []
+        saved = dict(st.env)
+        pn = frozenset(n[1] for n in hirq.walk(e[1]) if n[0] == "pbind")
         for s, t in self.ev_cond(e[1], st):
             if s.exit is not None:
-                out.append((s, UNK))
+                res = [(s, UNK)]
             elif t:
-                out += self.ev(e[2], s)
+                res = self.ev(e[2], s)
             elif e[3] is not None:
-                out += self.ev(e[3], s)
+                res = self.ev(e[3], s)
             else:
-                out.append((s, UNIT))
+                res = [(s, UNIT)]
+            for s2, v in res:
+                s2.env = dict((n, (old if n in pn else s2.env.get(n, old))) for n, old in saved.items())
+                out.append((s2, v))
         return dedupe(out)
 
     def ev_match(self, e, st):
@@ -872,6 +894,7 @@ class Interp:
             pend = [s0]
             for (pat, guard, body) in e[2]:
                 nxt = []
+                pn = frozenset(n[1] for n in hirq.walk(pat) if n[0] == "pbind")
                 for s in pend:
                     saved = dict(s.env)
                     for s2, ok in self.pm(pat, v, s.clone(), declare=False):
@@ -884,27 +907,21 @@ class Interp:
                                 if s3.exit is not None:
                                     out.append((s3, UNK))
                                 elif t:
-                                    out += self._arm(body, s3, saved)
+                                    out += self._arm(body, s3, saved, pn)
                                 else:
                                     s3.env = dict(saved)
                                     nxt.append(s3)
                         else:
-                            out += self._arm(body, s2, saved)
+                            out += self._arm(body, s2, saved, pn)
                 pend = nxt
             # states that match no arm: the match is exhaustive, so these assumptions are contradictory
         return dedupe(out)
 
-    def _arm(self, body, st, saved):
+    def _arm(self, body, st, saved, patnames=frozenset()):
+        # names bound by the pattern go out of scope; assignments to outer names persist
         res = []
         for s, v in self.ev(body, st):
-            env = {}
-            for name, old in saved.items():
-                env[name] = s.env.get(name, old)
-            # names bound by the pattern go out of scope; assignments to outer names persist
-            for name in list(s.env):
-                if name not in saved:
-                    pass
-            s.env = dict((n, s.env[n]) for n in saved) if all(n in s.env for n in saved) else env
+            s.env = dict((n, (old if n in patnames else s.env.get(n, old))) for n, old in saved.items())
             res.append((s, v))
         return res
 
@@ -1243,6 +1260,7 @@ class Interp:
         out = []
         exprs = [x for _f, x in e[2]]
         base = e[3] if len(e) > 3 else None
+        spath = hirq.def_path(e[1]) or "?"
         for s, vals in self.ev_seq(exprs, st):
             if s.exit is not None:
                 out.append((s, UNK))
@@ -1251,9 +1269,9 @@ class Interp:
                 for s2, bv in self.ev(base, s):
                     if has_tracked(bv):
                         raise Unint("struct update syntax with tracked base")
-                    out.append((s2, ("struct", e[1], tuple(zip(names, vals)))))
+                    out.append((s2, ("struct", spath, tuple(zip(names, vals)))))
             else:
-                out.append((s, ("struct", e[1], tuple(zip(names, vals)))))
+                out.append((s, ("struct", spath, tuple(zip(names, vals)))))
         return out
 
     def ev_assign(self, e, st):
@@ -1351,7 +1369,7 @@ class Interp:
             if s.exit is not None:
                 out.append((s, UNK))
                 continue
-            out += self.apply(d, hirq.last(d), list(vals), s, e, None)
+            out += self.apply(d, hirq.last(d), list(vals), s, e, None, list(e[3]))
         return out
 
     def ev_mcall(self, e, st):
@@ -1360,7 +1378,7 @@ class Interp:
             if s.exit is not None:
                 out.append((s, UNK))
                 continue
-            out += self.apply(e[2], e[3], list(vals), s, e, e[4])
+            out += self.apply(e[2], e[3], list(vals), s, e, e[4], [e[4]] + list(e[5]))
         return out
 
     def call_closure(self, cv, args, st):
@@ -1385,7 +1403,7 @@ class Interp:
                 out.append((s2, v))
         return out
 
-    def apply(self, d, name, vals, st, e, recv_expr):
+    def apply(self, d, name, vals, st, e, recv_expr, arg_exprs=()):
         """d: resolved path or None; vals: evaluated (receiver +) arguments"""
         if self.is_panic(d):
             return []
@@ -1407,13 +1425,15 @@ class Interp:
             if has_tracked(a):
                 raise Unint("lookup %s with %s" % (name, a[0]))
             return [(st, UNK)]
+        if d is not None and re.match(r"^alloc::vec::Vec::<.*>::(new|with_capacity)$", d):
+            return [(st, ("list", ()))]
         tracked = any(has_tracked(v) for v in vals)
         # functions of the generator module and accessors of the node enums: inline
         if d is not None and d in self.c.hir and tracked:
             if d.startswith(self.module) and not d.startswith(self.no_inline):
-                return self.inline(d, vals, st, e)
+                return self.inline(d, vals, st, e, arg_exprs)
             if vals and vals[0][0] == "enum" and d.rsplit("::", 1)[0] in self.m.roots:
-                return self.inline(d, vals, st, e)
+                return self.inline(d, vals, st, e, arg_exprs)
         if d is not None and d.startswith(self.module) and tracked and d not in self.c.hir:
             raise Unint("generator function %s without body facts receives a tracked value" % d)
         recv = vals[0] if (recv_expr is not None and vals) else None
@@ -1440,8 +1460,6 @@ class Interp:
     def set_local(self, st, recv_expr, value, tracked_new):
         l = hirq.strip(recv_expr) if recv_expr is not None else None
         if hirq.is_node(l) and l[0] == "local":
-            if tracked_new and l[1] in st.params and len(st.stack) > 1:
-                raise Unint("tracked value stored through parameter `%s`" % l[1])
             st.env[l[1]] = value
             return True
         if tracked_new:
@@ -1544,7 +1562,7 @@ class Interp:
             return None
         return None
 
-    def inline(self, d, vals, st, e):
+    def inline(self, d, vals, st, e, arg_exprs=()):
         if st.stack.count(d) > K_REC:
             self.pruned[("rec", d)] = self.pruned.get(("rec", d), 0) + 1
             return []
@@ -1568,6 +1586,17 @@ class Interp:
                         nxt.append(s2)
             cur = nxt
         out = []
+        # lists handed over by `&mut local`: what the callee does to them is visible to the caller
+        byref = []
+        for i, (pat, _ty) in enumerate(b["params"]):
+            if i < len(arg_exprs) and i < len(vals) and vals[i][0] == "list" and hirq.is_node(pat) and pat[0] == "pbind":
+                ax = hirq.unmacro(arg_exprs[i])
+                if hirq.is_node(ax) and ax[0] == "addr" and ax[1]:
+                    loc = hirq.local_name(ax[2])
+                    if loc is not None and loc in caller_env:
+                        byref.append((pat[1], loc))
+                elif hirq.is_node(ax) and ax[0] == "local" and isinstance(_ty, str) and _ty.startswith("&mut"):
+                    byref.append((pat[1], ax[1]))
         for x in cur:
             x.params = frozenset(x.env)
             for s2, v in self.ev(b["body"], x):
@@ -1577,7 +1606,10 @@ class Interp:
                         s2.exit = None
                     else:
                         raise Unint("%s: `%s` leaves the function" % (d, s2.exit[0]))
+                updates = [(loc, s2.env.get(pn, UNK)) for pn, loc in byref]
                 s2.env = dict(caller_env)
+                for loc, nv in updates:
+                    s2.env[loc] = nv
                 s2.decl = caller_decl
                 s2.params = caller_params
                 s2.stack = st.stack
@@ -1591,5 +1623,5 @@ class Interp:
     def ev_repeat(self, e, st):
         return [(st, UNK)]
 
-    def ev_lit_other(self, e, st):
+    def ev_other(self, e, st):
         return [(st, UNK)]
